@@ -107,7 +107,11 @@ def forward_replay(rep, fnd, tab, records, pid, pin_every=7):
         try:
             X = torch.eye(H * W).reshape(H * W, 1, H, W)
             m = fwd_module(taps, J, include_scale=True)
-            yls, yhs = m(X)
+            if k % 3 == 2:          # every third: the input requires grad (the path with a graph being recorded)
+                yls, yhs = m(X.clone().requires_grad_(True))
+                yls, yhs = [t.detach() for t in yls], [t.detach() for t in yhs]
+            else:
+                yls, yhs = m(X)
         except Exception as e:   # noqa
             rep.violation("DTCWTForward raised %r at %s" % (e, cfg), dict(case, observed=repr(e)))
             continue
@@ -451,6 +455,20 @@ def numeric_inverse(rep, fnd, pid, tier):
                 low = rng.standard_normal(p.lowpass.shape)
                 his = [rng.standard_normal(h.shape) + 1j * rng.standard_normal(h.shape) for h in p.highpasses]
                 amp = 1.0
+                if rk == 0:
+                    # tiny amplitudes: nothing is "numerically zero" for a linear map
+                    low, his, amp = low * 1e-30, [h * 1e-30 for h in his], 1e-30 * 4.0
+                    cfg["amplitude"] = 1e-30
+                elif rk == 1 and reps > 2:
+                    # integer-valued bands whose entries cancel exactly (sum == 0 without being zero)
+                    def bal(a):
+                        v = rng.integers(-5, 6, size=a.shape).astype(np.float64)
+                        v.flat[-1] -= v.sum()
+                        return v
+                    low = bal(low)
+                    his = [bal(h.real) + 1j * bal(h.imag) for h in his]
+                    amp = 40.0
+                    cfg["coefficients"] = "integers with zero sum"
                 if rk == reps - 1:
                     # a pyramid with a huge dynamic range BETWEEN its components (an image with a large offset: lowpass ~ 1e6,
                     # details ~ 1e-3 .. 1): the synthesis is linear - no component is "negligible" next to another
@@ -854,7 +872,11 @@ def numeric_pr(rep, fnd, pid, tier):
         for _ in range(2 if tier == "quick" else 8):
             H, W = int(rng.integers(2, 45)), int(rng.integers(2, 45))
             J = int(rng.integers(1, 5))
-            x = rng.standard_normal((2, 2, H, W)) * 10.0 ** rng.integers(-3, 4)
+            # amplitudes from 1e-30 to 1e+3: the transform is linear - nothing is "numerically zero" (thresholds, allclose with its
+            # hidden absolute tolerance, eps as an absolute bound) - and a flat pedestal with faint detail
+            x = rng.standard_normal((2, 2, H, W)) * 10.0 ** int(rng.choice([-30, -12, -9, -3, -1, 0, 1, 3]))
+            if rng.integers(0, 5) == 0:
+                x = 1.0 + 1e-9 * rng.standard_normal((2, 2, H, W))
             if rng.integers(0, 4) == 0:
                 x[:] = 0
                 x[..., 0, 0] = 1
